@@ -393,11 +393,14 @@ theorem sim_connect {m : State} {s : SState} {K : MStack} (e g l x : Nat) (h : S
         have := hsame0 d hd
         subst this
         refine ⟨d, hd, ?_⟩
-        intro idx snap hsnap hLI
+        intro pos snap hsnap hLI
         rw [hd's]
-        apply LI_append _ _ hLI
-        · rw [hslst, hactsome hc0]; simp
-        · intro u hu; rw [hsln]; have := hsnap u hu; omega
+        cases pos with
+        | none => exact hLI
+        | some idx =>
+          apply LI_append (xs := d.slots) (idx := idx) _ _ hLI
+          · rw [hslst, hactsome hc0]; simp
+          · intro u hu; rw [hsln]; have := hsnap u hu; omega
       · exact ⟨d'', hsub e' g' d'' hd'' c, fun _ _ _ hh => hh⟩
   simp only [machine, Spec.machine, connect, hem, hli]
   cases hsg : em.sig g with
